@@ -28,19 +28,22 @@ EXHAUSTIVE_CORE = "every ordered pair of calls per producer (start/restart/stop/
 ASSUMPTIONS = [
     "the producer's 'current id' is the one in force at the last start/update; the generator does not change a running map's COB-ID",
     "task flavours: python-can's thread task re-reads the Message object each cycle (by reference); hardware-backed tasks copy the frame at creation/modify_data",
+    "python-can-thread flavour: a frame that python-can's sender thread emits within 5 ms of virtual time after the API call (it had passed its own 'stopped' check, or fetched the message, "
+    "before the call) is python-can's and is not judged",
     "heartbeat model: running iff the last start had a non-zero time and no stop/0x1017=0 since; on the INITIALISING -> PRE-OPERATIONAL transition by slave-side assignment the stored 0x1017 value decides",
 ]
 COMPONENTS = {
     "real": ["canopen.sync.SyncProducer", "canopen.pdo.PdoMap.start/stop/update, PdoVariable.set_data", "canopen.nmt NmtSlave heartbeat / NmtMaster node guarding",
-             "canopen.network.PeriodicMessageTask, Network.send_periodic/disconnect", "python-can BusABC.send_periodic bookkeeping", "SDO client/server for the 0x1017 download"],
+             "canopen.network.PeriodicMessageTask, Network.send_periodic/disconnect", "python-can BusABC.send_periodic bookkeeping", "SDO client/server for the 0x1017 download",
+             "fourth task flavour (one seeded run in sixteen, Mode T): python-can's ThreadBasedCyclicSendTask itself, its threads scheduled by the simulator"],
     "stub": ["CAN backend (SimBus)", "python-can's cyclic send task (SimCyclicTask on the virtual clock, three flavours)", "can.Notifier"],
 }
 PROBES = ["sync-restart", "pdo-restart", "pdo-update-in-place", "pdo-update-restart", "hb-1017-sdo", "hb-1017-local", "hb-state-by-command",
-          "hb-state-by-assignment", "guard-restart", "disconnect", "disconnect-noncancelling-backend", "flavour-fixed", "flavour-modifiable-copy", "flavour-by-reference"]
+          "hb-state-by-assignment", "guard-restart", "disconnect", "disconnect-noncancelling-backend", "flavour-fixed", "flavour-modifiable-copy", "flavour-by-reference", "flavour-python-can-thread", "thread-task-frame-in-flight"]
 # probes that mark an injected disturbance; the runner also counts them as fired faults in the evidence
 FAULT_PROBES = {'disconnect-noncancelling-backend': 'backend-leaves-tasks-on-shutdown'}
 
-FLAVOURS = ("by-reference", "modifiable-copy", "fixed-copy")
+FLAVOURS = ("by-reference", "modifiable-copy", "fixed-copy", "python-can-thread")
 CALLS = {
     "sync": ("start", "start-same", "stop", "stop"),
     "pdo": ("start", "start-other-period", "stop", "set-var", "update", "set-var2"),
@@ -70,6 +73,7 @@ class TaskModel:
         self.payload = b""
         self.period = None
         self.remote = False
+        self.changed_at = 0     # virtual time of the last API call on this producer
 
 
 def build_slave_od():
@@ -100,6 +104,7 @@ class W:
         self.snet, self.sbus = world.make_network(ctx, self.ch, "slave", modifiable_tasks=modifiable, cancel_on_shutdown=cancel)
         for b in (self.mbus, self.sbus):
             b.tasks_by_reference = flavour == "by-reference"
+            b.real_thread_tasks = flavour == "python-can-thread"    # python-can's ThreadBasedCyclicSendTask itself (Mode T)
         self.nid = 1 + ctx.choice(127, "node")
         self.local = canopen.LocalNode(self.nid, build_slave_od())
         self.snet.add_node(self.local)
@@ -143,11 +148,14 @@ class W:
         self.disconnected = False
         self.mark = self.ch.n
 
+    def live(self):
+        return list(self.ch.live_tasks) + [v for v in self.ch.thread_tasks if v.alive()]
+
     def tasks_of(self, prod):
         bus = BUS_OF[prod]
         m = self.models[prod]
         out = []
-        for t in self.ch.live_tasks:
+        for t in self.live():
             cid, data, period, rtr = t.describe()
             if t.bus.name == bus and cid == m.can_id and rtr == m.remote:
                 out.append(t)
@@ -174,7 +182,7 @@ def _verify(ctx, w, what, flavour):
                 ctx.violation("C17/stale-payload/%s/%s" % (p, flavour), "%s: the %s task sends %s, the producer's current payload is %s" % (what, p, data.hex(), m.payload.hex()))
             if abs(period - m.period) > 1e-9:
                 ctx.violation("C17/wrong-period/%s" % p, "%s: the %s task runs every %r s, current period is %r" % (what, p, period, m.period))
-    stray = [t for t in w.ch.live_tasks if id(t) not in attributed]
+    stray = [t for t in w.live() if id(t) not in attributed]
     if stray:
         ctx.violation("C17/unattributed-task", "%s: live task(s) %r belong to no producer state" % (what, [(t.bus.name, t.tid, t.describe()) for t in stray]))
 
@@ -193,6 +201,11 @@ def _advance(ctx, w, what, flavour):
                 m = w.models[pname]
                 bus = BUS_OF[pname]
                 if f.src == bus and f.can_id == m.can_id and bool(f.rtr) == m.remote:
+                    if flavour == "python-can-thread" and f.t <= m.changed_at + 5 * MS:
+                        # python-can's sender thread had passed its own 'stopped' check (or had fetched the
+                        # message) when the call was made: that one frame is python-can's, not canopen's
+                        ctx.probe("thread-task-frame-in-flight")
+                        continue
                     if not m.running:
                         ctx.violation("C17/frame-from-stopped-producer/%s" % pname, "%s: frame %r emitted although the %s producer is stopped" % (what, f, pname))
                     if f.data != m.payload:
@@ -322,6 +335,7 @@ def _do(ctx, w, prod, callname, flavour):
             m.running = False
     if exc is not None:
         ctx.violation("C17/call-raised/%s@%s" % (type(exc).__name__, site(exc)), "%s raised %r" % (what, exc))
+    m.changed_at = ctx.now
     ctx.run_for(0)
     _verify(ctx, w, "after %s (%s tasks)" % (what, flavour), flavour)
     adv = _advance(ctx, w, "after %s (%s tasks)" % (what, flavour), flavour)
@@ -330,12 +344,32 @@ def _do(ctx, w, prod, callname, flavour):
 
 
 def scenario(ctx):
-    fl = ctx.choice(3, "flavour")
+    fl = ctx.choice(4, "flavour")
     mode = ctx.choice(2, "mode")
     i = ctx.choice(len(ALLCALLS), "i")
     j = ctx.choice(len(ALLCALLS), "j")
+    if fl == 3 and ctx.choice(4, "thrshare") != 0:
+        fl = ctx.choice(3, "flavour2")      # (real threads are slow: one seeded run in sixteen uses them)
     flavour = FLAVOURS[fl]
-    ctx.probe("flavour-" + {"by-reference": "by-reference", "modifiable-copy": "modifiable-copy", "fixed-copy": "fixed"}[flavour])
+    ctx.probe("flavour-" + {"by-reference": "by-reference", "modifiable-copy": "modifiable-copy", "fixed-copy": "fixed",
+                            "python-can-thread": "python-can-thread"}[flavour])
+    if flavour == "python-can-thread":
+        # python-can's own thread based cyclic sender runs as real code: its threads are tasks of the
+        # seeded scheduler, the calls below are made by an application task
+        ctx.enable_threads((0, 4)[ctx.choice(2, "policy")])
+        if ctx.choice(3, "stalls") == 1:
+            ctx.stall = lambda: (0, 0, 100 * US, 1 * MS)[ctx.choice(4, "stall")]
+            ctx.fault("slow-task")
+        ctx.spawn("app", lambda: _body(ctx, flavour, mode, i, j))
+        ctx.run_tasks()
+        for t in ctx.tasks:
+            if t.exc is not None and not t.daemon_task:
+                raise t.exc
+        return
+    _body(ctx, flavour, mode, i, j)
+
+
+def _body(ctx, flavour, mode, i, j):
     w = W(ctx, flavour)
     if mode == 1:
         _do(ctx, w, ALLCALLS[i][0], ALLCALLS[i][1], flavour)
